@@ -176,12 +176,14 @@ theorem secondEntry_mem (soft : Soft W) (e : FwEntry) (s : Node W) (f : Frame) (
   · injection h with h; subst h; split <;> simp [nextEntries]
   · cases h
   · split at h
+    · cases h
     · split at h
-      · injection h with h; subst h; simp [nextEntries]
       · split at h
         · injection h with h; subst h; simp [nextEntries]
-        · cases h
-    · cases h
+        · split at h
+          · injection h with h; subst h; simp [nextEntries]
+          · cases h
+      · cases h
 
 /-! ## 3. the cut theorem with a frame class -/
 
@@ -461,6 +463,9 @@ theorem C06_cut_class (sys : Sys N Nat Frame (Node W)) (side : N → Bool) (Cl :
                   · rename_i hz; exact hfinal ok .extOut _ hI2 (by simp [secondEntry, hz])
                 | dmzOut =>
                   simp only [fwNext]
+                  by_cases hb : (f'.dstMac == bcastMac) = true
+                  · simp only [hb, if_true, guardSends]; exact SafeAct.done hI2
+                  simp only [hb, Bool.false_eq_true, if_false]
                   rw [guard_bind]
                   refine safe_bind sys side _ _ n _ _ (ok.1.lookup rfl _ f' hI2 hcp) ?_
                   intro s3 hs3
@@ -470,10 +475,10 @@ theorem C06_cut_class (sys : Sys N Nat Frame (Node W)) (side : N → Bool) (Cl :
                     simp only
                     by_cases h1 : q = extPort
                     · simp only [h1, if_true]
-                      exact hfinal ok .extOut s3 hs3 (by simp [secondEntry, hq, h1])
+                      exact hfinal ok .extOut s3 hs3 (by simp [secondEntry, hb, hq, h1])
                     · by_cases h2 : q = intPort
                       · simp only [h2, if_true, extPort, intPort]
-                        exact hfinal ok .intIn s3 hs3 (by simp [secondEntry, hq, h2, extPort, intPort])
+                        exact hfinal ok .intIn s3 hs3 (by simp [secondEntry, hb, hq, h2, extPort, intPort])
                       · simp only [h1, h2, if_false, guardSends]
                         exact SafeAct.done hs3
                 | extOut => simp only [fwNext, guardSends]; exact SafeAct.done hI2
